@@ -1,11 +1,33 @@
+import MdkVerif.Generated
 import MdkVerif.Model.Keyring
 import MdkVerif.Model.OpenMatrix
 /- line protocol of the `atrest` engine (property C13): the op lines executed by `vh atrest` on the real
    code, completed with the observed environment (numbers of generated keys, the linearised keyring
    event trace of a concurrent run), are replayed on `Model.OpenMatrix` / `Model.Keyring`; one predicted
-   observation per line, in the harness' own format. -/
+   observation per line, in the harness' own format.
+   Faults: `ring panic <k>` arms a panic of the k-th credential call from now; a panic inside the locked
+   section of `get_or_create_db_key` poisons KEY_GENERATION_LOCK for the rest of the harness PROCESS
+   (`newprocess` = a fresh process).  What a poisoned lock does to later callers is the model's rule
+   `Generated.lockPoisonFailsClosed`, re-extracted from keyring.rs on every run. -/
 namespace Driver.AtrestDrv
 open MdkVerif MdkVerif.OpenMatrix
+
+/-- how the code under test treats a poisoned lock -/
+def fcRule : Bool := Generated.lockPoisonFailsClosed
+
+/-- process-level state of the harness: is KEY_GENERATION_LOCK poisoned; the armed fault (credential
+    calls left until the panic); has the fault fired -/
+structure Proc where
+  pz : Bool := false
+  arm : Option Nat := none
+  fired : Bool := false
+
+def Proc.faulty (p : Proc) : Bool := p.pz || p.arm.isSome
+
+/-- account for `calls` credential calls, the `at`-th of which (if any) was the injected panic -/
+def Proc.spend (p : Proc) (calls : Nat) (panicked : Bool) (pz : Bool) : Proc :=
+  if panicked then { pz := pz, arm := none, fired := true }
+  else { p with pz := pz, arm := p.arm.map (· - calls) }
 
 def octal (n : Nat) : String := String.ofList (Nat.toDigits 8 n)
 
@@ -110,11 +132,18 @@ def ringOfWorld : RingSt → Option Nat
   | .key k => some k
   | _ => none
 
+/-- is the `i`-th credential call (1-based) of this op the one the armed fault hits? -/
+def hits (arm : Option Nat) (i : Nat) : Bool := arm == some i
+
 /-- replays the observed events; returns the model's final state, the predicted event strings and the
-    keys stored -/
-def replayKey (s0 : Keyring.St) (evs : List KEv) : Keyring.St × List String × List Nat :=
-  evs.foldl (fun (acc : Keyring.St × List String × List Nat) e =>
-    let (s, outs, stored) := acc
+    keys stored.  A `panic` event is an input (like a failing call) but must sit exactly where the
+    armed fault says. -/
+def replayKey (s0 : Keyring.St) (arm : Option Nat) (evs : List KEv) : Keyring.St × List String × List Nat :=
+  let r := evs.foldl (fun (acc : Keyring.St × List String × List Nat × Nat) e =>
+    let (s, outs, stored, i) := acc
+    let i := i + 1
+    let isPanic := e.val == "panic"
+    if isPanic != hits arm i then (s, outs ++ [s!"{e.t}.{e.op}.FAULT-NOT-WHERE-INJECTED"], stored, i) else
     -- a read that returns an entry of the wrong length makes `get_db_key` fail like an unavailable store
     let ok := e.val != "err" && e.val != "bad"
     match e.op with
@@ -123,42 +152,54 @@ def replayKey (s0 : Keyring.St) (evs : List KEv) : Keyring.St × List String × 
       -- the lock right before its second read — the model must find the lock free at that point
       let (s1, blocked) := match s.pc e.t with
         | .wantLock =>
-          let s' := Keyring.step s (.step e.t 0 true)
+          let s' := Keyring.step fcRule s (.step e.t 0 true)
           (s', s'.pc e.t == Keyring.Pc.wantLock)
         | _ => (s, false)
-      if blocked then (s1, outs ++ [s!"{e.t}.get.LOCK-HELD-BY-ANOTHER"], stored) else
+      if blocked then (s1, outs ++ [s!"{e.t}.get.LOCK-HELD-BY-ANOTHER"], stored, i) else
       match s1.pc e.t with
       | .start | .locked =>
+        if isPanic then (Keyring.step fcRule s1 (.panic e.t), outs ++ [s!"{e.t}.get.panic"], stored, i) else
         let pred := if !ok then e.val else match s1.ring with
           | some k => showKey k
           | none => "none"
-        (Keyring.step s1 (.step e.t 0 ok), outs ++ [s!"{e.t}.get.{pred}"], stored)
-      | _ => (s1, outs ++ [s!"{e.t}.get.UNEXPECTED"], stored)
+        (Keyring.step fcRule s1 (.step e.t 0 ok), outs ++ [s!"{e.t}.get.{pred}"], stored, i)
+      | _ => (s1, outs ++ [s!"{e.t}.get.UNEXPECTED"], stored, i)
     | "set" =>
       match s.pc e.t, parseKeyTok e.val with
       | .gen, some k =>
-        let s1 := Keyring.step s (.step e.t k true)        -- generate() returned k
-        let s2 := Keyring.step s1 (.step e.t k true)       -- set_secret
-        (s2, outs ++ [s!"{e.t}.set.{showKey k}"], stored ++ [k])
+        let s1 := Keyring.step fcRule s (.step e.t k true)        -- generate() returned k
+        let s2 := Keyring.step fcRule s1 (.step e.t k true)       -- set_secret
+        (s2, outs ++ [s!"{e.t}.set.{showKey k}"], stored ++ [k], i)
       | .gen, none =>
-        let s1 := Keyring.step s (.step e.t 0 true)
-        let s2 := Keyring.step s1 (.step e.t 0 false)      -- set_secret failed
-        (s2, outs ++ [s!"{e.t}.set.err"], stored)
-      | _, _ => (s, outs ++ [s!"{e.t}.set.UNEXPECTED"], stored)
+        let s1 := Keyring.step fcRule s (.step e.t 0 true)
+        if isPanic then (Keyring.step fcRule s1 (.panic e.t), outs ++ [s!"{e.t}.set.panic"], stored, i) else
+        let s2 := Keyring.step fcRule s1 (.step e.t 0 false)      -- set_secret failed
+        (s2, outs ++ [s!"{e.t}.set.err"], stored, i)
+      | _, _ => (s, outs ++ [s!"{e.t}.set.UNEXPECTED"], stored, i)
     | "del" =>
       let pred := if !ok then "err" else match s.ring with
         | some k => showKey k
         | none => "none"
-      ((if ok then Keyring.step s .delete else s), outs ++ [s!"{e.t}.del.{pred}"], stored)
-    | _ => (s, outs ++ ["BAD-EVENT"], stored)) (s0, [], [])
+      ((if ok then Keyring.step fcRule s .delete else s), outs ++ [s!"{e.t}.del.{pred}"], stored, i)
+    | _ => (s, outs ++ ["BAD-EVENT"], stored, i)) (s0, [], [], 0)
+  (r.1, r.2.1, r.2.2.1)
 
-def showConcKey (w : World) (n : Nat) (evs : List KEv) : World × String :=
-  let s0 := Keyring.init (ringOfWorld w.ring)
-  let (s, outs, stored) := replayKey s0 evs
+def hasPanic (evs : List KEv) : Bool := evs.any (·.val == "panic")
+
+def showConcKey (w : World) (pr : Proc) (n : Nat) (evs : List KEv) : World × Proc × String :=
+  let s0 := Keyring.init (ringOfWorld w.ring) pr.pz
+  let (s, outs, stored) := replayKey s0 pr.arm evs
+  -- callers that have no further keyring operation to show: a caller waiting for the lock takes it now
+  -- (a poisoned lock, under the fail-closed rule, makes it return Err without any keyring call)
+  let s := (List.range n).foldl (fun s i =>
+    match s.pc (i + 1) with
+    | .wantLock => Keyring.step fcRule s (.step (i + 1) 0 true)
+    | _ => s) s
+  let panicked := (evs.filter (·.val == "panic")).map (·.t)
   let rets := (List.range n).map fun i =>
     match s.pc (i + 1) with
     | .done k => showKey k
-    | .failed => "err"
+    | .failed => if panicked.contains (i + 1) then "panic" else "err"
     | _ => "RUNNING"
   let returned := dedup ((List.range n).filterMap fun i => match s.pc (i + 1) with
     | .done k => some k
@@ -169,8 +210,46 @@ def showConcKey (w : World) (n : Nat) (evs : List KEv) : World × String :=
       | .key _ => .none
       | r => r
   let w' := { w with ring := ring', stores := w.stores + s.stores }
-  let evs := if outs.isEmpty then "-" else ";".intercalate outs
-  (w', s!"ev={evs} ret={",".intercalate rets} stores={s.stores} distinct_stored={(dedup stored).length} distinct_returned={returned.length} usable=1 file=- ring={showRing ring'}")
+  let evs' := if outs.isEmpty then "-" else ";".intercalate outs
+  (w', pr.spend evs.length (hasPanic evs) s.poisoned,
+   s!"ev={evs'} ret={",".intercalate rets} stores={s.stores} distinct_stored={(dedup stored).length} distinct_returned={returned.length} usable=1 file=- ring={showRing ring'}")
+
+/-! ### a lone caller under a fault (armed panic and / or poisoned lock), on the interleaving models -/
+
+def isCallPc : Keyring.Pc → Bool
+  | .start => true
+  | .locked => true
+  | .store _ => true
+  | _ => false
+
+/-- `get_or_create_db_key` by a lone caller `t`; returns the final state, the number of credential calls
+    made and whether the fault fired -/
+def loneKey (s0 : Keyring.St) (t fresh : Nat) (arm : Option Nat) : Keyring.St × Nat × Bool :=
+  (List.range 8).foldl (fun (acc : Keyring.St × Nat × Bool) _ =>
+    let (s, calls, fired) := acc
+    match s.pc t with
+    | .done _ => acc
+    | .failed => acc
+    | pc =>
+      if isCallPc pc then
+        if hits arm (calls + 1) then (Keyring.step fcRule s (.panic t), calls + 1, true)
+        else (Keyring.step fcRule s (.step t fresh true), calls + 1, fired)
+      else (Keyring.step fcRule s (.step t fresh true), calls, fired)) (s0, 0, false)
+
+def showLoneKey (w : World) (pr : Proc) (fresh : Nat) : World × Proc × String :=
+  match w.ring with
+  | .none | .key _ =>
+    let (s, calls, fired) := loneKey (Keyring.init (ringOfWorld w.ring) pr.pz) 1 fresh pr.arm
+    let head := match s.pc 1 with
+      | .done k => s!"some {showKey k}"
+      | .failed => if fired then "panic" else "err Keyring"
+      | _ => "RUNNING"
+    let ring' : RingSt := match s.ring with
+      | some k => .key k
+      | none => .none
+    let w' := { w with ring := ring', stores := w.stores + s.stores }
+    (w', pr.spend calls fired s.poisoned, s!"{head} {keyTail w w' fresh}")
+  | _ => (w, pr, "UNSUPPORTED-RING-STATE-UNDER-FAULT")
 
 /-! ### replay of concurrent `MdkSqliteStorage::new` calls on `Model.Keyring.nstep` -/
 
@@ -183,22 +262,32 @@ def nfileOf : FileSt → Option NFile
 
 /-- `rets`: the observed results, used ONLY to place the invisible file probe of a follower (a follower
     that reported KeyringEntryMissing probed after the creator had written the header) -/
-def showConcNew (w : World) (n : Nat) (evs : List KEv) (rets : List String) : World × String :=
+def showConcNew (w : World) (pr : Proc) (n : Nat) (evs : List KEv) (rets : List String) : World × Proc × String :=
   open Keyring in
   match nfileOf w.file with
-  | none => (w, "UNSUPPORTED-START-STATE")
+  | none => (w, pr, "UNSUPPORTED-START-STATE")
   | some f0 =>
-  let s0 : NSt := { file := f0, k := Keyring.init (ringOfWorld w.ring), pc := fun _ => .pre }
+  let nstep := Keyring.nstep fcRule
+  let s0 : NSt := { file := f0, k := Keyring.init (ringOfWorld w.ring) pr.pz, pc := fun _ => .pre }
   -- the creator is the thread that performs a second keyring operation (if any); with a key already
   -- in the keyring creator and followers are indistinguishable (one read each) and behave alike
   let counts := fun (t : Nat) => (evs.filter (·.t == t)).length
-  let creator := (List.range n).map (· + 1) |>.find? (fun t => counts t ≥ 2)
+  -- under a poisoned lock (fail-closed rule) the creator shows ONE read and returns Err(Keyring); a
+  -- creator whose first read panics shows one event, too: the observed results tell who won O_EXCL
+  let ts := (List.range n).map (· + 1)
+  let creator := (ts.find? (fun t => counts t ≥ 2)).orElse fun _ =>
+    if f0 != NFile.missing then none else
+    (ts.find? (fun t => rets.getD (t - 1) "" == "err:Keyring")).orElse fun _ =>
+    ts.find? (fun t => rets.getD (t - 1) "" == "panic")
   let s1 := match creator with
     | some c => nstep s0 c 0
     | none => s0
   let deferred := fun (t : Nat) => rets.getD (t - 1) "" == "err:KeyringEntryMissing"
-  let (s2, outs, stored) := evs.foldl (fun (acc : NSt × List String × List Nat) e =>
-    let (s, outs, stored) := acc
+  let (s2, outs, stored, _) := evs.foldl (fun (acc : NSt × List String × List Nat × Nat) e =>
+    let (s, outs, stored, i) := acc
+    let i := i + 1
+    let isPanic := e.val == "panic"
+    if isPanic != hits pr.arm i then (s, outs ++ [s!"{e.t}.{e.op}.FAULT-NOT-WHERE-INJECTED"], stored, i) else
     let s := if s.pc e.t == NPc.pre then nstep s e.t 0 else s
     match e.op with
     | "get" =>
@@ -207,26 +296,30 @@ def showConcNew (w : World) (n : Nat) (evs : List KEv) (rets : List String) : Wo
           let s' := nstep s e.t 0
           (s', s'.k.pc e.t == Pc.wantLock)
         else (s, false)
-      if blocked then (s, outs ++ [s!"{e.t}.get.LOCK-HELD-BY-ANOTHER"], stored) else
+      if blocked then (s, outs ++ [s!"{e.t}.get.LOCK-HELD-BY-ANOTHER"], stored, i) else
       let readable := (s.pc e.t == NPc.kr && (s.k.pc e.t == Pc.start || s.k.pc e.t == Pc.locked)) || s.pc e.t == NPc.chk
-      if !readable then (s, outs ++ [s!"{e.t}.get.UNEXPECTED"], stored) else
+      if !readable then (s, outs ++ [s!"{e.t}.get.UNEXPECTED"], stored, i) else
+      if isPanic then (npanic s e.t, outs ++ [s!"{e.t}.get.panic"], stored, i) else
       let pred := match s.k.ring with
         | some k => showKey k
         | none => "none"
       let s' := nstep s e.t 0
       -- a follower that saw no key probes the file at once (unless the observation says otherwise)
       let s'' := if s'.pc e.t == NPc.probe && !deferred e.t then nstep s' e.t 0 else s'
-      (s'', outs ++ [s!"{e.t}.get.{pred}"], stored)
+      (s'', outs ++ [s!"{e.t}.get.{pred}"], stored, i)
     | "set" =>
       match parseKeyTok e.val with
       | some k =>
         if s.pc e.t == NPc.kr && s.k.pc e.t == Pc.gen then
           -- generate() = k; set_secret; return; the creator opens (writes the header) right after
           let s4 := nstep (nstep (nstep (nstep s e.t k) e.t k) e.t k) e.t k
-          (s4, outs ++ [s!"{e.t}.set.{showKey k}"], stored ++ [k])
-        else (s, outs ++ [s!"{e.t}.set.UNEXPECTED"], stored)
-      | none => (s, outs ++ [s!"{e.t}.set.UNEXPECTED"], stored)
-    | _ => (s, outs ++ ["BAD-EVENT"], stored)) (s1, [], [])
+          (s4, outs ++ [s!"{e.t}.set.{showKey k}"], stored ++ [k], i)
+        else (s, outs ++ [s!"{e.t}.set.UNEXPECTED"], stored, i)
+      | none =>
+        if isPanic && s.pc e.t == NPc.kr && s.k.pc e.t == Pc.gen then
+          (npanic (nstep s e.t 0) e.t, outs ++ [s!"{e.t}.set.panic"], stored, i)
+        else (s, outs ++ [s!"{e.t}.set.UNEXPECTED"], stored, i)
+    | _ => (s, outs ++ ["BAD-EVENT"], stored, i)) (s1, [], [], 0)
   -- remaining invisible steps (return from get_or_create, open, deferred probes)
   let s3 := (List.range n).foldl (fun s i =>
     let t := i + 1
@@ -240,6 +333,7 @@ def showConcNew (w : World) (n : Nat) (evs : List KEv) (rets : List String) : Wo
     match s3.pc (i + 1) with
     | .ok k => showKey k
     | .err e => showE e
+    | .panicked => "panic"
     | _ => "RUNNING"
   let returned := dedup ((List.range n).filterMap fun i => match s3.pc (i + 1) with
     | .ok k => some k
@@ -259,68 +353,160 @@ def showConcNew (w : World) (n : Nat) (evs : List KEv) (rets : List String) : Wo
     | .missing => mode600
     | _ => if returned.isEmpty then w.fmode else mode600
   let w' := { w with file := file', ring := ring', stores := w.stores + s3.k.stores, dir := dir', fmode := fmode' }
-  let evs := if outs.isEmpty then "-" else ";".intercalate outs
-  (w', s!"ev={evs} ret={",".intercalate retS} stores={s3.k.stores} distinct_stored={(dedup stored).length} distinct_returned={returned.length} usable=1 file={showFile file'} ring={showRing ring'}")
+  let evs' := if outs.isEmpty then "-" else ";".intercalate outs
+  (w', pr.spend evs.length (hasPanic evs) s3.k.poisoned,
+   s!"ev={evs'} ret={",".intercalate retS} stores={s3.k.stores} distinct_stored={(dedup stored).length} distinct_returned={returned.length} usable=1 file={showFile file'} ring={showRing ring'}")
+
+/-- `MdkSqliteStorage::new` by a lone caller under a fault, on `Model.Keyring.nstep` / `npanic` -/
+def showLoneNew (w : World) (pr : Proc) (fresh : Nat) : World × Proc × String :=
+  open Keyring in
+  let ringOk := match w.ring with
+    | .none => true
+    | .key _ => true
+    | _ => false
+  match nfileOf w.file with
+  | none => (w, pr, "UNSUPPORTED-FILE-STATE-UNDER-FAULT")
+  | some f0 =>
+  if !ringOk then (w, pr, "UNSUPPORTED-RING-STATE-UNDER-FAULT") else
+  let t := 1
+  let s0 : NSt := { file := f0, k := Keyring.init (ringOfWorld w.ring) pr.pz, pc := fun _ => .pre }
+  let (s, calls, fired) := (List.range 14).foldl (fun (acc : NSt × Nat × Bool) _ =>
+    let (s, calls, fired) := acc
+    let isCall := match s.pc t with
+      | .chk => true
+      | .kr => isCallPc (s.k.pc t)
+      | _ => false
+    match s.pc t with
+    | .ok _ => acc
+    | .err _ => acc
+    | .panicked => acc
+    | _ =>
+      if isCall then
+        if hits pr.arm (calls + 1) then (npanic s t, calls + 1, true)
+        else (Keyring.nstep fcRule s t fresh, calls + 1, fired)
+      else (Keyring.nstep fcRule s t fresh, calls, fired)) (s0, 0, false)
+  let opened := match s.pc t with
+    | .ok _ => true
+    | _ => false
+  let head := match s.pc t with
+    | .ok k =>
+      let d := match w.file with
+        | .enc k' d' => if k = k' then d' else 0
+        | _ => 0
+      s!"ok key={showKey k} data={d}"
+    | .err .unencrypted => "err UnencryptedDatabaseWithEncryption"
+    | .err .keyMissing => "err KeyringEntryMissing"
+    | .err .wrongKey => "err WrongEncryptionKey"
+    | .err .keyring => "err Keyring"
+    | .panicked => "panic"
+    | _ => "RUNNING"
+  let file' : FileSt := match s.file, w.file with
+    | .enc k, .enc k' d => if k = k' then .enc k d else .enc k 0
+    | .enc k, _ => .enc k 0
+    | .empty, _ => .empty
+    | .missing, _ => .missing
+  let ring' : RingSt := match s.k.ring with
+    | some k => .key k
+    | none => .none
+  let dir' := match w.dir with
+    | none => some mode700
+    | d => d
+  let fmode' := match w.file with
+    | .missing => mode600
+    | _ => if opened then mode600 else w.fmode
+  let w' := { w with file := file', ring := ring', stores := w.stores + s.k.stores, dir := dir', fmode := fmode' }
+  (w', pr.spend calls fired s.k.poisoned, s!"{head} {tail w w' fresh}")
 
 def toks (line : String) : List String :=
   (line.trimAscii.toString.splitOn " ").filter (· ≠ "")
 
 def freshOf (s : String) : Nat := (parseKeyTok s).getD 0
 
-partial def loop (h : IO.FS.Stream) (w : World) : IO Unit := do
+partial def loop (h : IO.FS.Stream) (w : World) (pr : Proc) : IO Unit := do
   let line ← h.getLine
   if line.isEmpty then return ()
   match toks line with
-  | [] => loop h w
+  | [] => loop h w pr
+  | ["newprocess"] =>
+    -- a fresh harness process: KEY_GENERATION_LOCK exists anew, nothing is armed
+    IO.println "ok"; loop h (World.fresh none) {}
   | ["reset", d] =>
     let dir := match d with
       | "pre755" => some mode755
       | "pre700" => some mode700
       | _ => none
-    IO.println "ok"; loop h (World.fresh dir)
+    -- the keyring and the files are new; the process-wide lock is not
+    IO.println "ok"; loop h (World.fresh dir) { pz := pr.pz }
   | ["file", f] =>
     match parseFile f with
-    | some f => IO.println "ok"; loop h (setFile w f)
-    | none => IO.println "bad-op"; loop h w
+    | some f => IO.println "ok"; loop h (setFile w f) pr
+    | none => IO.println "bad-op"; loop h w pr
+  | ["ring", "panic", k] =>
+    match k.toNat? with
+    | some (k + 1) => IO.println "ok"; loop h w { pz := pr.pz, arm := some (k + 1), fired := false }
+    | _ => IO.println "bad-op"; loop h w pr
+  | ["faultstate"] =>
+    let out := match pr.arm, pr.fired with
+      | some n, _ => s!"fault=armed:{n}"
+      | none, true => "fault=fired"
+      | none, false => "fault=none"
+    IO.println out; loop h w pr
   | ["ring", r] =>
     match parseRing r with
-    | some r => IO.println "ok"; loop h (setRing w r)
-    | none => IO.println "bad-op"; loop h w
+    | some r => IO.println "ok"; loop h (setRing w r) pr
+    | none => IO.println "bad-op"; loop h w pr
   | ["open", c, fresh] =>
     match parseCtor c with
+    | some .new =>
+      if pr.faulty then
+        let (w', pr', out) := showLoneNew w pr (freshOf fresh)
+        IO.println out; loop h w' pr'
+      else
+        let (w', out) := showOpen .new w (freshOf fresh)
+        IO.println out; loop h w' pr
     | some c =>
       let (w', out) := showOpen c w (freshOf fresh)
-      IO.println out; loop h w'
-    | none => IO.println "bad-op"; loop h w
+      IO.println out; loop h w' pr
+    | none => IO.println "bad-op"; loop h w pr
   | ["getkey", _] =>
-    let out := match getDbKey w.ring with
-      | .error e => s!"err {showErr e}"
-      | .ok none => "none"
-      | .ok (some k) => s!"some {showKey k}"
-    IO.println s!"{out} {keyTail w w 0}"; loop h w
+    if hits pr.arm 1 then
+      IO.println s!"panic {keyTail w w 0}"; loop h w (pr.spend 1 true pr.pz)
+    else
+      let out := match getDbKey w.ring with
+        | .error e => s!"err {showErr e}"
+        | .ok none => "none"
+        | .ok (some k) => s!"some {showKey k}"
+      -- one credential call, unless no store is installed (Entry::new fails first)
+      let calls := if w.ring == RingSt.nostore then 0 else 1
+      IO.println s!"{out} {keyTail w w 0}"; loop h w (pr.spend calls false pr.pz)
   | ["getorcreate", fresh] =>
     let f := freshOf fresh
-    let (w', r) := getOrCreate w f
-    let out := match r with
-      | .error e => s!"err {showErr e}"
-      | .ok k => s!"some {showKey k}"
-    IO.println s!"{out} {keyTail w w' f}"; loop h w'
+    if pr.faulty then
+      let (w', pr', out) := showLoneKey w pr f
+      IO.println out; loop h w' pr'
+    else
+      let (w', r) := getOrCreate w f
+      let out := match r with
+        | .error e => s!"err {showErr e}"
+        | .ok k => s!"some {showKey k}"
+      IO.println s!"{out} {keyTail w w' f}"; loop h w' pr
   | ["delkey", _] =>
+    if pr.arm.isSome then IO.println "UNSUPPORTED-UNDER-ARMED-FAULT"; loop h w pr else
     let (w', r) := deleteDbKey w
     let out := match r with
       | .error e => s!"err {showErr e}"
       | .ok _ => "ok"
-    IO.println s!"{out} {keyTail w w' 0}"; loop h w'
+    IO.println s!"{out} {keyTail w w' 0}"; loop h w' pr
   | ["conc", "key", n, evs] =>
-    let (w', out) := showConcKey w (n.toNat?.getD 0) (parseEvents evs)
-    IO.println out; loop h w'
+    let (w', pr', out) := showConcKey w pr (n.toNat?.getD 0) (parseEvents evs)
+    IO.println out; loop h w' pr'
   | ["conc", "new", n, evs, rets] =>
-    let (w', out) := showConcNew w (n.toNat?.getD 0) (parseEvents evs) (rets.splitOn ",")
-    IO.println out; loop h w'
-  | _ => IO.println "bad-op"; loop h w
+    let (w', pr', out) := showConcNew w pr (n.toNat?.getD 0) (parseEvents evs) (rets.splitOn ",")
+    IO.println out; loop h w' pr'
+  | _ => IO.println "bad-op"; loop h w pr
 
 def main : IO Unit := do
   let h ← IO.getStdin
-  loop h (World.fresh none)
+  loop h (World.fresh none) {}
 
 end Driver.AtrestDrv
